@@ -463,6 +463,11 @@ class VariantIntervalCollection(AbstractFeatureIntervalCollection):
         return self.variant_collection_name
 
     @property
+    def is_coding(self) -> bool:
+        """Variant collections are never coding; lets collection-level filters treat every child uniformly."""
+        return False
+
+    @property
     def alternative_genomic_sequence(self) -> Sequence:
         """Edited version of the original sequence"""
         if not self.has_sequence:
